@@ -1,134 +1,18 @@
 /-
   C08 helper lemmas, part 6: from the invariant to the property's statements
-  (children exact, one region per gene, definition genes, build-order independence).
+  (children exact, one region per gene, definition genes, sections, name map, fresh observations).
 -/
-import ASV.Proofs.LookupInv
+import ASV.Proofs.LookupRun
 namespace ASV.Lookup
 open ASV
 
-/-! ### the collections reached by `add_cds`, in terms of the tree -/
-
-theorem downNodes_self (g : Gene) (a : AreaT) : a ∈ downNodes g a := by
-  cases a; simp [downNodes]
-
-theorem nodes_self (a : AreaT) : a ∈ nodes a := by
-  cases a; simp [nodes]
-
-theorem nodes_kid {a k : AreaT} (hk : k ∈ a.kids) : ∀ d ∈ nodes k, d ∈ nodes a := by
-  cases a with
-  | mk id kind loc core product kids =>
-    simp only [AreaT.kids] at hk
-    intro d hd
-    simp only [nodes, List.mem_cons]
-    right
-    induction kids with
-    | nil => simp at hk
-    | cons k' ks ih =>
-      simp only [nodes.nodesL, List.mem_append]
-      rcases List.mem_cons.1 hk with rfl | hk'
-      · exact Or.inl hd
-      · exact Or.inr (ih hk')
-
-theorem mem_nodesL {ks : List AreaT} {d : AreaT} : d ∈ nodes.nodesL ks ↔ ∃ k ∈ ks, d ∈ nodes k := by
-  induction ks with
-  | nil => simp [nodes.nodesL]
-  | cons k ks ih => simp [nodes.nodesL, ih]
-
-theorem mem_nodes {a d : AreaT} : d ∈ nodes a ↔ d = a ∨ ∃ k ∈ a.kids, d ∈ nodes k := by
-  cases a with
-  | mk id kind loc core product kids => simp [nodes, mem_nodesL, AreaT.kids]
-
-theorem mem_downKids {g : Gene} {ks : List AreaT} {d : AreaT} :
-    d ∈ downKids g ks ↔ ∃ k ∈ ks, containedBy g.loc k.loc = true ∧ d ∈ downNodes g k := by
-  induction ks with
-  | nil => simp [downKids]
-  | cons k ks ih =>
-    simp only [downKids, List.mem_append, ih, List.mem_cons, exists_eq_or_imp]
-    by_cases hc : containedBy g.loc k.loc = true
-    · simp [hc]
-    · simp [hc]
-
-theorem mem_downNodes {g : Gene} {a d : AreaT} :
-    d ∈ downNodes g a ↔ d = a ∨ ∃ k ∈ a.kids, containedBy g.loc k.loc = true ∧ d ∈ downNodes g k := by
-  cases a with
-  | mk id kind loc core product kids => simp [downNodes, mem_downKids, AreaT.kids]
-
-/-- size of a tree, for inductions over it -/
-def AreaT.size : AreaT → Nat
-  | .mk _ _ _ _ _ kids => 1 + sizeL kids
-where sizeL : List AreaT → Nat
-  | [] => 0
-  | k :: ks => k.size + sizeL ks
-
-theorem size_kid {a k : AreaT} (hk : k ∈ a.kids) : k.size < a.size := by
-  cases a with
-  | mk id kind loc core product kids =>
-    simp only [AreaT.kids] at hk
-    simp only [AreaT.size]
-    induction kids with
-    | nil => simp at hk
-    | cons k' ks ih =>
-      simp only [AreaT.size.sizeL]
-      rcases List.mem_cons.1 hk with rfl | hk'
-      · omega
-      · have := ih hk'; omega
-
-/-- everything `add_cds` reaches contains the gene, and is a node of the collection's tree -/
-theorem downNodes_sound (g : Gene) : ∀ (n : Nat) (a d : AreaT), a.size ≤ n → containedBy g.loc a.loc = true →
-    d ∈ downNodes g a → containedBy g.loc d.loc = true ∧ d ∈ nodes a
-  | 0, a, _, hn, _, _ => by cases a; simp [AreaT.size] at hn
-  | n + 1, a, d, hn, hc, hd => by
-    rcases mem_downNodes.1 hd with rfl | ⟨k, hk, hck, hdk⟩
-    · exact ⟨hc, nodes_self _⟩
-    · have := size_kid hk
-      obtain ⟨h1, h2⟩ := downNodes_sound g n k d (by omega) hck hdk
-      exact ⟨h1, nodes_kid hk d h2⟩
-
-/-! ### containment is transitive -/
-
-theorem containedBy_trans {g k a : Loc} (h1 : containedBy g k = true) (h2 : containedBy k a = true) :
-    containedBy g a = true := by
-  simp only [containedBy, locationContainsOther, List.all_eq_true, List.any_eq_true, partContains,
-    Bool.and_eq_true, decide_eq_true_eq] at *
-  intro gp hgp
-  obtain ⟨kp, hkp, hk⟩ := h1 gp hgp
-  obtain ⟨ap, hap, ha⟩ := h2 kp hkp
-  exact ⟨ap, hap, by omega⟩
-
-/-- every child collection lies inside its parent (what the `parent` setter asserts) -/
-def KidsInside (a : AreaT) : Prop := ∀ n ∈ nodes a, ∀ k ∈ n.kids, containedBy k.loc n.loc = true
-
-theorem KidsInside.kid {a k : AreaT} (h : KidsInside a) (hk : k ∈ a.kids) : KidsInside k :=
-  fun n hn k' hk' => h n (nodes_kid hk n hn) k' hk'
-
-/-- … then a gene inside a node is inside all its ancestors and is passed down to it -/
-theorem downNodes_complete (g : Gene) : ∀ (n : Nat) (a d : AreaT), a.size ≤ n → KidsInside a → d ∈ nodes a →
-    containedBy g.loc d.loc = true → containedBy g.loc a.loc = true ∧ d ∈ downNodes g a
-  | 0, a, _, hn, _, _, _ => by cases a; simp [AreaT.size] at hn
-  | n + 1, a, d, hn, hin, hd, hc => by
-    rcases mem_nodes.1 hd with rfl | ⟨k, hk, hdk⟩
-    · exact ⟨hc, downNodes_self g _⟩
-    · have := size_kid hk
-      obtain ⟨h1, h2⟩ := downNodes_complete g n k d (by omega) (hin.kid hk) hdk hc
-      have hka : containedBy k.loc a.loc = true := hin a (nodes_self a) k hk
-      exact ⟨containedBy_trans h1 hka, mem_downNodes.2 (Or.inr ⟨k, hk, h1, h2⟩)⟩
-
-/-! ### histories -/
-
-/-- what the property assumes of a history: well-formed gene and area locations; one id names one object;
-    children lie inside their parents; regions are never somebody's child -/
+/-- what the property assumes of a history: well-formed arguments (genes, collections, regions only at the
+    top of a collection tree); one id names one object; children lie inside their parents -/
 structure HistoryOK (ops : List Op) : Prop where
   opOK : ∀ op ∈ ops, OpOK op
-  ids : ∀ a b, Op.area a ∈ ops → Op.area b ∈ ops → ∀ d ∈ nodes a, ∀ e ∈ nodes b, d.id = e.id →
+  ids : ∀ a ∈ opsAreas ops, ∀ b ∈ opsAreas ops, ∀ d ∈ nodes a, ∀ e ∈ nodes b, d.id = e.id →
     d.loc = e.loc ∧ d.core = e.core ∧ d.product = e.product ∧ d.kind = e.kind
-  inside : ∀ a, Op.area a ∈ ops → KidsInside a
-  regionsTop : ∀ a, Op.area a ∈ ops → ∀ d ∈ nodes a, d.kind = .region → d = a
-
-theorem mem_children (r : Rec) (aid gid : Nat) : gid ∈ r.children aid ↔ (aid, gid) ∈ r.members := by
-  simp only [Rec.children, List.mem_map, List.mem_filter, beq_iff_eq]
-  constructor
-  · rintro ⟨x, ⟨hx, rfl⟩, rfl⟩; exact hx
-  · intro h; exact ⟨(aid, gid), ⟨h, rfl⟩, rfl⟩
+  inside : ∀ a ∈ opsAreas ops, KidsInside a
 
 theorem mem_definition (r : Rec) (aid gid : Nat) : gid ∈ r.definition aid ↔ (aid, gid) ∈ r.defs := by
   simp only [Rec.definition, List.mem_map, List.mem_filter, beq_iff_eq]
@@ -136,48 +20,61 @@ theorem mem_definition (r : Rec) (aid gid : Nat) : gid ∈ r.definition aid ↔ 
   · rintro ⟨x, ⟨hx, rfl⟩, rfl⟩; exact hx
   · intro h; exact ⟨(aid, gid), ⟨h, rfl⟩, rfl⟩
 
-theorem gene_le {g : Gene} (h : LocOK g.loc) : ∀ p ∈ g.loc.parts, p.lo ≤ p.hi :=
-  fun p hp => by have := (h.2.1 p hp).2; omega
+theorem mem_section (r : Rec) (aid gid : Nat) (s : Section) : gid ∈ r.section aid s ↔ ((aid, s), gid) ∈ r.sections := by
+  simp only [Rec.section, List.mem_map, List.mem_filter, beq_iff_eq]
+  constructor
+  · rintro ⟨⟨k, v⟩, ⟨hx, e1⟩, e2⟩
+    simp only at e1 e2; subst e1; subst e2; exact hx
+  · intro h; exact ⟨((aid, s), gid), ⟨h, rfl⟩, rfl⟩
 
-/-- a gene linked to `d'` is contained in it -/
-theorem Linked.contained {areas : List AreaT} {g : Gene} {d : AreaT} (h : Linked areas g d) :
+/-- a gene linked to `d` is contained in it, and `d` is a node of one of the collections -/
+theorem LinkedS.contained {areas : List AreaT} {g : Gene} {d : AreaT} {s : Section} (h : LinkedS areas g d s) :
     containedBy g.loc d.loc = true ∧ ∃ a ∈ areas, d ∈ nodes a := by
   obtain ⟨a, ha, hc, hd⟩ := h
-  obtain ⟨h1, h2⟩ := downNodes_sound g a.size a d (Nat.le_refl _) hc hd
+  obtain ⟨h1, h2⟩ := downNodes_sound g a.size none a (d, s) (Nat.le_refl _) hc hd
   exact ⟨h1, a, ha, h2⟩
 
-/-- every area of the history (added directly, or a child of one that was) lists exactly the genes its
+theorem registered_eq_live {L : Live} {ever : List AreaT} {r : Rec} (c : InvCore L ever r) : registered r = L.areas := by
+  simp only [registered, Live.areas, c.regionsEq, c.protosEq, c.candsEq, c.subsEq]
+
+/-- every collection currently in the record, and every descendant of one, lists exactly the genes its
     location contains -/
 theorem children_exact {len : Int} {ops : List Op} {r : Rec} (hrun : run len ops = .ok r) (hok : HistoryOK ops)
-    (a : AreaT) (ha : Op.area a ∈ ops) (d : AreaT) (hd : d ∈ nodes a) (gid : Nat) :
+    (a : AreaT) (ha : a ∈ (liveAfter ops).areas) (d : AreaT) (hd : d ∈ nodes a) (gid : Nat) :
     gid ∈ r.children d.id ↔ gid ∈ specChildren r.genes d := by
-  have inv := run_inv hok.opOK hrun
-  rw [mem_children, inv.members]
+  have inv := (run_inv hok.opOK hrun).core
+  have har : a ∈ registered r := by rw [registered_eq_live inv]; exact ha
+  have hae := inv.liveEver a har
+  rw [mem_children]
   simp only [specChildren, List.mem_map, List.mem_filter]
   constructor
-  · rintro ⟨g, hg, d', hl, hx⟩
+  · intro hm
+    obtain ⟨g, hg, d', ⟨s, hl⟩, hx⟩ := inv.membersSound _ hm
     injection hx with h1 h2
     obtain ⟨hc, a', ha', hd'⟩ := hl.contained
-    have e := (hok.ids a' a ((inv.areasSeen a').1 ha') ha d' hd' d hd h1.symm).1
+    have e := (hok.ids a' ha' a hae d' hd' d hd h1.symm).1
     refine ⟨g, ⟨hg, ?_⟩, h2.symm⟩
     rw [← containedBy_eq_spec (gene_le (inv.ok g hg)), ← e]; exact hc
   · rintro ⟨g, ⟨hg, hc⟩, rfl⟩
     rw [← containedBy_eq_spec (gene_le (inv.ok g hg))] at hc
-    obtain ⟨h1, h2⟩ := downNodes_complete g a.size a d (Nat.le_refl _) (hok.inside a ha) hd hc
-    exact ⟨g, hg, d, ⟨a, (inv.areasSeen a).2 ha, h1, h2⟩, rfl⟩
+    obtain ⟨h1, s, h2⟩ := downNodes_complete g a.size none a d (Nat.le_refl _) (hok.inside a hae) hd hc
+    exact inv.membersComplete g hg d ⟨s, a, har, h1, h2⟩
 
 /-- a protocluster's defining genes: inside it, inside its core, with a core annotation for its product -/
 theorem definition_exact {len : Int} {ops : List Op} {r : Rec} (hrun : run len ops = .ok r) (hok : HistoryOK ops)
-    (a : AreaT) (ha : Op.area a ∈ ops) (d : AreaT) (hd : d ∈ nodes a) (hk : d.kind = .proto) (gid : Nat) :
+    (a : AreaT) (ha : a ∈ (liveAfter ops).areas) (d : AreaT) (hd : d ∈ nodes a) (hk : d.kind = .proto) (gid : Nat) :
     gid ∈ r.definition d.id ↔ gid ∈ specDefinition r.genes d := by
-  have inv := run_inv hok.opOK hrun
-  rw [mem_definition, inv.defs]
+  have inv := (run_inv hok.opOK hrun).core
+  have har : a ∈ registered r := by rw [registered_eq_live inv]; exact ha
+  have hae := inv.liveEver a har
+  rw [mem_definition]
   simp only [specDefinition, List.mem_map, List.mem_filter, Bool.and_eq_true]
   constructor
-  · rintro ⟨g, hg, d', hl, hdef, hx⟩
+  · intro hm
+    obtain ⟨g, hg, d', ⟨s, hl⟩, hdef, hx⟩ := inv.defsSound _ hm
     injection hx with h1 h2
     obtain ⟨hc, a', ha', hd'⟩ := hl.contained
-    obtain ⟨e1, e2, e3, _⟩ := hok.ids a' a ((inv.areasSeen a').1 ha') ha d' hd' d hd h1.symm
+    obtain ⟨e1, e2, e3, _⟩ := hok.ids a' ha' a hae d' hd' d hd h1.symm
     simp only [defines, Bool.and_eq_true, beq_iff_eq] at hdef
     refine ⟨g, ⟨hg, ⟨?_, ?_⟩, ?_⟩, h2.symm⟩
     · rw [← containedBy_eq_spec (gene_le (inv.ok g hg)), ← e1]; exact hc
@@ -185,159 +82,119 @@ theorem definition_exact {len : Int} {ops : List Op} {r : Rec} (hrun : run len o
     · rw [← e3]; exact hdef.2
   · rintro ⟨g, ⟨hg, ⟨hc, hcore⟩, hprod⟩, rfl⟩
     rw [← containedBy_eq_spec (gene_le (inv.ok g hg))] at hc hcore
-    obtain ⟨h1, h2⟩ := downNodes_complete g a.size a d (Nat.le_refl _) (hok.inside a ha) hd hc
-    refine ⟨g, hg, d, ⟨a, (inv.areasSeen a).2 ha, h1, h2⟩, ?_, rfl⟩
+    obtain ⟨h1, s, h2⟩ := downNodes_complete g a.size none a d (Nat.le_refl _) (hok.inside a hae) hd hc
+    refine inv.defsComplete g hg d ⟨s, a, har, h1, h2⟩ ?_
     have hp : d.product ∈ g.cores := by simpa using hprod
     simp [defines, hk, hcore, hp]
 
-/-! ### one region per gene -/
-
-theorem pairwise_sym_mem {α} {R : α → α → Prop} (hsym : ∀ a b, R a b → R b a) :
-    ∀ {l : List α}, l.Pairwise R → ∀ {a b : α}, a ∈ l → b ∈ l → a = b ∨ R a b
-  | [], _, _, _, ha, _ => by simp at ha
-  | x :: l, h, a, b, ha, hb => by
-    obtain ⟨h1, h2⟩ := List.pairwise_cons.1 h
-    rcases List.mem_cons.1 ha with rfl | ha'
-    · rcases List.mem_cons.1 hb with rfl | hb'
-      · exact Or.inl rfl
-      · exact Or.inr (h1 b hb')
-    · rcases List.mem_cons.1 hb with rfl | hb'
-      · exact Or.inr (hsym _ _ (h1 a ha'))
-      · exact pairwise_sym_mem hsym h2 ha' hb'
-
-/-- two locations that both contain a (non-empty) gene overlap -/
-theorem overlap_of_both_contain {g a b : Loc} (hg : LocOK g) (ha : QueryOK a) (hb : QueryOK b)
-    (h1 : containedBy g a = true) (h2 : containedBy g b = true) : overlapsWith b a = true := by
-  obtain ⟨gp, hgp⟩ := List.exists_mem_of_ne_nil _ hg.1
-  have hne := (hg.2.1 gp hgp).2
-  simp only [containedBy, locationContainsOther, List.all_eq_true, List.any_eq_true, partContains,
-    Bool.and_eq_true, decide_eq_true_eq] at h1 h2
-  obtain ⟨ap, hap, h1⟩ := h1 gp hgp
-  obtain ⟨bp, hbp, h2⟩ := h2 gp hgp
-  rw [overlapsWith, locationsOverlap_iff b a (fun p hp => (hb.2 p hp).2) (fun p hp => (ha.2 p hp).2)]
-  refine ⟨gp.lo, ?_, ?_⟩
-  · simp only [Loc.mem, List.any_eq_true, Part.mem_iff]; exact ⟨bp, hbp, by omega, by omega⟩
-  · simp only [Loc.mem, List.any_eq_true, Part.mem_iff]; exact ⟨ap, hap, by omega, by omega⟩
-
-theorem regions_sub_registered (r : Rec) : ∀ a ∈ r.regions, a ∈ registered r := by
-  intro a ha; simp [registered, ha]
-
-/-- at most one region of the record contains a given gene -/
-theorem region_containing_unique {seen : List Op} {r : Rec} (inv : Inv seen r) {g : Gene} (hg : g ∈ r.genes)
-    {a b : AreaT} (ha : a ∈ r.regions) (hb : b ∈ r.regions)
-    (hca : containedBy g.loc a.loc = true) (hcb : containedBy g.loc b.loc = true) : a = b := by
-  have hsym : ∀ x y : AreaT, overlapsWith y.loc x.loc = false → overlapsWith x.loc y.loc = false := by
-    intro x y h; simp only [overlapsWith] at *; rw [locationsOverlap_comm]; exact h
-  rcases pairwise_sym_mem hsym inv.disjoint ha hb with h | h
-  · exact h
-  · have := overlap_of_both_contain (inv.ok g hg) (inv.areasOK a (regions_sub_registered r a ha))
-      (inv.areasOK b (regions_sub_registered r b hb)) hca hcb
-    rw [h] at this; cases this
-
-theorem gene_of_id {seen : List Op} {r : Rec} (inv : Inv seen r) {g g' : Gene} (hg : g ∈ r.genes) (hg' : g' ∈ r.genes)
-    (hid : g'.id = g.id) : g' = g := by
-  have hsym : ∀ x y : Gene, x.id ≠ y.id → y.id ≠ x.id := fun _ _ h => h.symm
-  rcases pairwise_sym_mem hsym inv.ids hg' hg with h | h
-  · exact h
-  · exact absurd hid h
-
-/-- every recorded `cds.region = region` assignment points at a region of the record containing the gene -/
-theorem regionOf_entry {ops : List Op} {r : Rec} (inv : Inv ops r) (hok : HistoryOK ops) {g : Gene} (hg : g ∈ r.genes)
-    {rid : Nat} (h : (g.id, rid) ∈ r.regionOf) :
-    ∃ a ∈ r.regions, containedBy g.loc a.loc = true ∧ a.id = rid := by
-  obtain ⟨g', hg', d, hl, hk, hx⟩ := (inv.regionOf _).1 h
-  injection hx with h1 h2
-  have := gene_of_id inv hg hg' h1.symm
-  subst this
-  obtain ⟨a', ha', hc, hd⟩ := hl
-  obtain ⟨_, hd'⟩ := downNodes_sound g' a'.size a' d (Nat.le_refl _) hc hd
-  have hseen := (inv.areasSeen a').1 ha'
-  have := hok.regionsTop a' hseen d hd' hk
-  subst this
-  exact ⟨d, (inv.regionsSeen d).2 ⟨hseen, hk⟩, hc, h2.symm⟩
-
-theorem region_of_gene {len : Int} {ops : List Op} {r : Rec} (hrun : run len ops = .ok r) (hok : HistoryOK ops)
+/-- each gene points to the region of the record containing it, or to none -/
+theorem region_of_gene {len : Int} {ops : List Op} {r : Rec} (hrun : run len ops = .ok r) (hok : ∀ op ∈ ops, OpOK op)
     {g : Gene} (hg : g ∈ r.genes) :
     (∀ a ∈ r.regions, containedBy g.loc a.loc = true → r.regionOfGene g.id = some a.id) ∧
-    ((∀ a ∈ r.regions, containedBy g.loc a.loc = false) → r.regionOfGene g.id = none) := by
-  have inv := run_inv hok.opOK hrun
+    ((∀ a ∈ r.regions, containedBy g.loc a.loc = false) → r.regionOfGene g.id = none) :=
+  (run_inv hok hrun).core.regionPtr g hg
+
+/-! ### sections -/
+
+theorem ownSection_eq_spec (a : AreaT) (g : Gene) (hg : LocOK g.loc) : ownSection a g none = specSection a.loc g.loc := by
+  have hle := gene_le hg
+  simp only [ownSection, chooseSection, specSection]
+  by_cases hx : crosses g.loc = true
+  · simp [hx]
+  · have hx' : crosses g.loc = false := by simpa using hx
+    simp only [hx', Bool.or_false, Bool.false_eq_true, if_false]
+    rcases hp : a.loc.parts with _ | ⟨p0, _ | ⟨p1, rest⟩⟩
+    · simp
+    · simp
+    · simp only [List.length_cons]
+      have : decide (rest.length + 1 + 1 > 1) = true := by simp
+      simp only [this, if_true, Bool.true_and, containedBy_eq_spec hle]
+      cases specContained g.loc (.simple p1) <;> simp
+
+theorem size_node {a d : AreaT} (hd : d ∈ nodes a) : d.size ≤ a.size := by
+  have : ∀ n (a d : AreaT), a.size ≤ n → d ∈ nodes a → d.size ≤ a.size := by
+    intro n
+    induction n with
+    | zero => intro a d hn _; cases a; simp [AreaT.size] at hn
+    | succ n ih =>
+      intro a d hn hd
+      rcases mem_nodes.1 hd with rfl | ⟨k, hk, hdk⟩
+      · exact Nat.le_refl _
+      · have := size_kid hk
+        have := ih k d (by omega) hdk
+        omega
+  exact this a.size a d (Nat.le_refl _) hd
+
+/-- the root of a tree is reached only as the root -/
+theorem down_root_section {g : Gene} {a : AreaT} {s : Section} (h : (a, s) ∈ downNodes g none a) : s = ownSection a g none := by
+  rcases mem_downNodes.1 h with e | ⟨k, hk, hc, hd⟩
+  · injection e
+  · exfalso
+    obtain ⟨_, hn⟩ := downNodes_sound g k.size _ k (a, s) (Nat.le_refl _) hc hd
+    have h1 : a.size ≤ k.size := size_node hn
+    have h2 := size_kid hk
+    omega
+
+/-- a region's three sections: the genes it contains, split by the rule of `specSection` -/
+theorem region_sections_exact {len : Int} {ops : List Op} {r : Rec} (hrun : run len ops = .ok r) (hok : HistoryOK ops)
+    (a : AreaT) (ha : a ∈ r.regions) (s : Section) (gid : Nat) :
+    gid ∈ r.section a.id s ↔
+      ∃ g ∈ r.genes, g.id = gid ∧ specContained g.loc a.loc = true ∧ specSection a.loc g.loc = s := by
+  have inv := (run_inv hok.opOK hrun).core
+  have har := regions_sub_registered r a ha
+  have hae := inv.liveEver a har
+  have hka := inv.kindsR a ha
+  rw [mem_section]
   constructor
-  · intro a ha hc
-    have hentry : (g.id, a.id) ∈ r.regionOf := by
-      rw [inv.regionOf]
-      exact ⟨g, hg, a, ⟨a, regions_sub_registered r a ha, hc, downNodes_self g a⟩,
-        ((inv.regionsSeen a).1 ha).2, rfl⟩
-    unfold Rec.regionOfGene
-    cases hf : r.regionOf.find? (fun x => x.1 == g.id) with
+  · intro hm
+    obtain ⟨g, hg, d, s', hl, hx⟩ := inv.sectionsSound _ hm
+    injection hx with h1 h2
+    injection h1 with h1 h3
+    obtain ⟨a', ha', hc, hd⟩ := hl
+    obtain ⟨_, hn⟩ := downNodes_sound g a'.size none a' (d, s') (Nat.le_refl _) hc hd
+    obtain ⟨e1, _, _, e4⟩ := hok.ids a' ha' a hae d hn a (nodes_self a) h1.symm
+    have hroot := (inv.areasOK a' ha').2 d hn (by rw [e4]; exact hka)
+    subst hroot
+    have hs := down_root_section hd
+    refine ⟨g, hg, h2.symm, ?_, ?_⟩
+    · rw [← containedBy_eq_spec (gene_le (inv.ok g hg)), ← e1]; exact hc
+    · rw [h3, hs, ownSection_eq_spec d g (inv.ok g hg), e1]
+  · rintro ⟨g, hg, rfl, hc, hs⟩
+    rw [← containedBy_eq_spec (gene_le (inv.ok g hg))] at hc
+    have := inv.sectionsComplete g hg a (ownSection a g none) ⟨a, har, hc, downNodes_self g none a⟩
+    rw [ownSection_eq_spec a g (inv.ok g hg), hs] at this
+    exact this
+
+/-- every gene a collection lists sits in at least one of its sections, and the sections hold nothing else -/
+theorem sections_cover {len : Int} {ops : List Op} {r : Rec} (hrun : run len ops = .ok r) (hok : ∀ op ∈ ops, OpOK op)
+    (aid gid : Nat) : gid ∈ r.children aid ↔ ∃ s, gid ∈ r.section aid s := by
+  have inv := (run_inv hok hrun).core
+  rw [mem_children, inv.cover]
+  simp only [mem_section]
+
+/-! ### the name map -/
+
+theorem name_lookup {len : Int} {ops : List Op} {r : Rec} (hrun : run len ops = .ok r) (hok : ∀ op ∈ ops, OpOK op)
+    (gid : Nat) (g : Gene) :
+    r.byName.find? (fun x => x.1 == gid) = some (gid, g) ↔ (g ∈ r.genes ∧ g.id = gid) := by
+  have inv := (run_inv hok hrun).core
+  constructor
+  · intro hf
+    have hm := List.mem_of_find?_eq_some hf
+    obtain ⟨g', hg', e⟩ := (inv.byName _).1 hm
+    injection e with e1 e2
+    subst e2; exact ⟨hg', e1.symm⟩
+  · rintro ⟨hg, rfl⟩
+    have hm : (g.id, g) ∈ r.byName := (inv.byName _).2 ⟨g, hg, rfl⟩
+    cases hf : r.byName.find? (fun x => x.1 == g.id) with
     | none =>
       rw [List.find?_eq_none] at hf
-      exact absurd (by simp) (hf _ hentry)
+      exact absurd (by simp) (hf _ hm)
     | some x =>
       have hx1 : x.1 = g.id := by simpa using List.find?_some hf
-      have hx : (g.id, x.2) ∈ r.regionOf := by
-        have := List.mem_of_find?_eq_some hf
-        rw [← hx1]; exact this
-      obtain ⟨b, hb, hcb, hid⟩ := regionOf_entry inv hok hg hx
-      have := region_containing_unique inv hg ha hb hc hcb
-      subst this
-      simp [hid]
-  · intro hnone
-    unfold Rec.regionOfGene
-    cases hf : r.regionOf.find? (fun x => x.1 == g.id) with
-    | none => rfl
-    | some x =>
-      have hx1 : x.1 = g.id := by simpa using List.find?_some hf
-      have hx : (g.id, x.2) ∈ r.regionOf := by
-        have := List.mem_of_find?_eq_some hf
-        rw [← hx1]; exact this
-      obtain ⟨b, hb, hcb, _⟩ := regionOf_entry inv hok hg hx
-      rw [hnone b hb] at hcb; cases hcb
-
-/-! ### build-order independence -/
-
-theorem HistoryOK.perm {ops₁ ops₂ : List Op} (hp : ops₁.Perm ops₂) (h : HistoryOK ops₁) : HistoryOK ops₂ where
-  opOK := fun op hop => h.opOK op (hp.mem_iff.2 hop)
-  ids := fun a b ha hb => h.ids a b (hp.mem_iff.2 ha) (hp.mem_iff.2 hb)
-  inside := fun a ha => h.inside a (hp.mem_iff.2 ha)
-  regionsTop := fun a ha => h.regionsTop a (hp.mem_iff.2 ha)
-
-/-- two orderings of the same calls end with the same genes, the same area ↔ gene relation, the same
-    defining genes and the same set of region assignments -/
-theorem order_independent_sets {len : Int} {ops₁ ops₂ : List Op} {r₁ r₂ : Rec} (hp : ops₁.Perm ops₂)
-    (hok : ∀ op ∈ ops₁, OpOK op) (h1 : run len ops₁ = .ok r₁) (h2 : run len ops₂ = .ok r₂) :
-    (∀ g, g ∈ r₁.genes ↔ g ∈ r₂.genes) ∧ (∀ a, a ∈ r₁.regions ↔ a ∈ r₂.regions)
-    ∧ (∀ x, x ∈ r₁.members ↔ x ∈ r₂.members) ∧ (∀ x, x ∈ r₁.defs ↔ x ∈ r₂.defs)
-    ∧ (∀ x, x ∈ r₁.regionOf ↔ x ∈ r₂.regionOf) := by
-  have inv₁ := run_inv hok h1
-  have inv₂ := run_inv (fun op hop => hok op (hp.mem_iff.2 hop)) h2
-  have hg : ∀ g, g ∈ r₁.genes ↔ g ∈ r₂.genes := fun g => by
-    rw [inv₁.genesSeen, inv₂.genesSeen, hp.mem_iff]
-  have hr : ∀ a, a ∈ registered r₁ ↔ a ∈ registered r₂ := fun a => by
-    rw [inv₁.areasSeen, inv₂.areasSeen, hp.mem_iff]
-  have hl := fun g d => Linked.congr hr g d
-  refine ⟨hg, ?_, ?_, ?_, ?_⟩
-  · intro a; rw [inv₁.regionsSeen, inv₂.regionsSeen, hp.mem_iff]
-  · intro x; rw [inv₁.members, inv₂.members]; simp only [hg, hl]
-  · intro x; rw [inv₁.defs, inv₂.defs]; simp only [hg, hl]
-  · intro x; rw [inv₁.regionOf, inv₂.regionOf]; simp only [hg, hl]
-
-/-- … and every gene points to the same region -/
-theorem order_independent_region {len : Int} {ops₁ ops₂ : List Op} {r₁ r₂ : Rec} (hp : ops₁.Perm ops₂)
-    (hok : HistoryOK ops₁) (h1 : run len ops₁ = .ok r₁) (h2 : run len ops₂ = .ok r₂) :
-    ∀ g ∈ r₁.genes, r₁.regionOfGene g.id = r₂.regionOfGene g.id := by
-  obtain ⟨hg, hr, _⟩ := order_independent_sets hp hok.opOK h1 h2
-  intro g hg1
-  have hg2 := (hg g).1 hg1
-  obtain ⟨a1, n1⟩ := region_of_gene h1 hok hg1
-  obtain ⟨a2, n2⟩ := region_of_gene h2 (hok.perm hp) hg2
-  by_cases hex : ∃ a ∈ r₁.regions, containedBy g.loc a.loc = true
-  · obtain ⟨a, ha, hc⟩ := hex
-    rw [a1 a ha hc, a2 a ((hr a).1 ha) hc]
-  · have hnone : ∀ a ∈ r₁.regions, containedBy g.loc a.loc = false := by
-      intro a ha
-      cases hc : containedBy g.loc a.loc
-      · rfl
-      · exact absurd ⟨a, ha, hc⟩ hex
-    rw [n1 hnone, n2 (fun a ha => hnone a ((hr a).2 ha))]
+      obtain ⟨g', hg', e⟩ := (inv.byName _).1 (List.mem_of_find?_eq_some hf)
+      subst e
+      have := gene_of_id inv.ids hg hg' hx1
+      subst this; rfl
 
 end ASV.Lookup
